@@ -98,16 +98,25 @@ fn warm_up() {
     use conn::{ConnKind, ConnOpts};
     let mut r = rng::Rng::new(1);
     let o = ConnOpts::default();
-    for (i, ck) in [ConnKind::Http1, ConnKind::Http2, ConnKind::Tls, ConnKind::TcpOnly, ConnKind::Garbage].iter().enumerate() {
-        let c = conn::build(&mut r, *ck, pkt::Endpoint::v4(10, 250, 0, 1, 40000 + i as u16), pkt::Endpoint::v4(10, 250, 0, 2, 80), &o);
-        let order = vec![0usize; c.steps.len()];
-        let trace = conn::to_trace(&[c], &order);
-        for k in sut::Kind::ALL {
-            huginn_net_verif_rt::clock::arm(1_700_000_000_000);
-            let _ = sut::run_deliver(&sut::SutCfg::new(k, 64), &trace);
-            let _ = sut::run_loop(&sut::SutCfg::new(k, 64), &trace);
+    // many connections of every kind (the generators branch a lot: header sets, language lists, hostile blocks, ...),
+    // with logging on so that every log call site is registered too
+    logsim::set(true);
+    let kinds = [ConnKind::Http1, ConnKind::Http2, ConnKind::Http2Hostile, ConnKind::Tls, ConnKind::TcpOnly, ConnKind::Garbage, ConnKind::TlsThenHttpResponse, ConnKind::Http1Reversed];
+    for round in 0..24u16 {
+        for (i, ck) in kinds.iter().enumerate() {
+            let c = conn::build(&mut r, *ck, pkt::Endpoint::v4(10, 250, (round % 250) as u8, 1, 40000 + i as u16), pkt::Endpoint::v4(10, 250, 0, 2, 80), &o);
+            let order = vec![0usize; c.steps.len()];
+            let trace = conn::to_trace(&[c], &order);
+            for k in sut::Kind::ALL {
+                huginn_net_verif_rt::clock::arm(1_700_000_000_000);
+                let _ = sut::run_deliver(&sut::SutCfg::new(k, 64), &trace);
+                if round == 0 {
+                    let _ = sut::run_loop(&sut::SutCfg::new(k, 64), &trace);
+                }
+            }
         }
     }
+    let _ = logsim::take_events();
     huginn_net_verif_rt::clock::disarm();
 }
 
